@@ -41,7 +41,8 @@ OpsOf(s) ==
   \cup (IF On("Reopen") THEN {[op |-> "Reopen", fresh |-> f] : f \in FreshC} ELSE {})
   \cup (IF On("OpenForeign") THEN {[op |-> "OpenForeign", shape |-> ForeignShape(x)] : x \in Shapes} ELSE {})
   \cup (IF On("Markdown") THEN {[op |-> "Markdown", kind |-> k] : k \in Kinds} ELSE {})
-  \cup {[op |-> x] : x \in OpNames \cap {"AddParagraph", "AddHeader", "AddFooter", "AddTable"}}
+  \* operations that emit no ids; RenderTemplate = load the document as a template and render it (a copy)
+  \cup {[op |-> x] : x \in OpNames \cap {"AddParagraph", "AddHeader", "AddFooter", "AddTable", "RenderTemplate"}}
 
 Init == st = InitSt /\ hist = <<>> /\ n = 0
 
